@@ -65,6 +65,10 @@ let sign_at (rho : n -> rnum) (p : mpoly) : int =
       sgn_of_z (get (psgn_rn big_fuel g (snd (List.hd irr))))
     end
 
+(* polynomials with coefficients beyond 40 bits: the monitors sample fewer points (the comparison with the model,
+   which is what exposes machine-word shortcuts, is unaffected) *)
+let huge (p : mpoly) : bool = List.exists (fun (_, c) -> ZA.numbits (zarith_of_z c) > 40) p
+
 (* a rational close to the value (for choosing sample points only) *)
 let rec approx k (v : rnum) : rat = match v with RQ q -> q | RA (_, lo, hi) -> if k = 0 then q_mid lo hi else approx (k - 1) (rn_refine v)
 let holds (c : sgn_cond) (s : int) = sc_holds c (zi s)
@@ -171,7 +175,8 @@ let run_ib order ps cs negs pres (cout : string list) : string =
           let r = refine 16 r in
           let l = rn_lo r and h = rn_hi r in
           [RQ l; RQ h; RQ (q_sub l (q_of_ints 1 16)); RQ (q_add h (q_of_ints 1 16)); RQ (rat_mid ctr l); RQ (rat_mid ctr h)]) rs in
-      (RQ ctr :: rs) @ near @ [RQ (q_add ctr (zi 1, zi 1)); RQ (q_sub ctr (zi 1, zi 1)); RQ (q_add ctr (zi 7, zi 1))] in
+      if huge p then RQ ctr :: rs
+      else (RQ ctr :: rs) @ near @ [RQ (q_add ctr (zi 1, zi 1)); RQ (q_sub ctr (zi 1, zi 1)); RQ (q_add ctr (zi 7, zi 1))] in
     let check_point (pt : (int * rnum) list) =
       let rho x = try List.assoc (int_of_n x) pt with Not_found -> raise Unassigned in
       let s = sign_at rho p in
@@ -198,7 +203,7 @@ let run_ib order ps cs negs pres (cout : string list) : string =
     let rec prod = function
       | [] -> [[]]
       | i :: rest -> let tl = prod rest in List.concat_map (fun v -> List.map (fun t -> (i, v) :: t) tl) (grid i) in
-    if List.length vars <= 3 then List.iter check_point (prod vars)
+    if List.length vars <= 3 && not (huge p) then List.iter check_point (prod vars)
   end;
   (* ---- comparison with the model *)
   if cret <> mret then failf "return code %d, model %d" cret mret;
@@ -245,7 +250,8 @@ let run_fm order p1s c1s p2s c2s rmode (vals : string list) (cout : string list)
      let lower_vars = List.filter (fun i -> i <> int_of_n x && mvals.(i) <> None) (List.init nv (fun i -> i)) in
      let base = List.map (fun i -> (i, match mvals.(i) with Some v -> v | None -> rq_int 0)) lower_vars in
      let has_alg = List.exists (fun (_, v) -> match v with RQ _ -> false | _ -> true) base in
-     let deltas = if has_alg then [q_of_ints 1 1] else [q_of_ints 1 1; q_of_ints (-1) 1; q_of_ints 1 3; q_of_ints (-5) 2] in
+     let hg = huge p1 || huge p2 in
+     let deltas = if hg then [] else if has_alg then [q_of_ints 1 1] else [q_of_ints 1 1; q_of_ints (-1) 1; q_of_ints 1 3; q_of_ints (-5) 2] in
      let perturb =
        List.concat_map (fun (i, v) ->
            match v with
@@ -274,7 +280,8 @@ let run_fm order p1s c1s p2s c2s rmode (vals : string list) (cout : string list)
            let rat_near b = [b; q_sub b (q_of_ints 1 4); q_add b (q_of_ints 1 4); q_sub b (q_of_ints 3 1); q_add b (q_of_ints 3 1);
                              q_sub b (q_of_ints 1 1024); q_add b (q_of_ints 1 1024)] in
            let mids = match bs with [b1; b2] -> [q_mid b1 b2] | _ -> [] in
-           let xs = List.concat_map rat_near bs @ mids @ [q_of_ints 0 1; q_of_ints 100 1; q_of_ints (-100) 1] in
+           let xs = if hg then bs @ mids @ [q_of_ints 0 1]
+             else List.concat_map rat_near bs @ mids @ [q_of_ints 0 1; q_of_ints 100 1; q_of_ints (-100) 1] in
            List.iter (fun xq ->
                let s1 = sgn_p p1 xq and s2 = sgn_p p2 xq in
                if holds c1 s1 && holds c2 s2 then begin
